@@ -27,21 +27,25 @@ package field
 //@ globalinv [X:feOne] isone(feOne)
 
 //@ func mul64(a, b)
+//@   leak none
 //@   mode lia
 //@   ensures [value] v128(result) == a * b
 //@   ensures [lo] result.lo < 2^64
 
 //@ func addMul64(v, a, b)
+//@   leak none
 //@   mode lia
 //@   requires [fits] v128(v) + a * b < 2^128
 //@   ensures [value] v128(result) == v128(v) + a * b
 
 //@ func shiftRightBy51(a)
+//@   leak none
 //@   mode lia
 //@   requires [fits] v128(a) < 2^115
 //@   ensures [value] result == v128(a) / 2^51
 
 //@ func (*Element).carryPropagateGeneric(v)
+//@   leak none
 //@   mode lia
 //@   assigns *v
 //@   ensures [receiver] result == v
@@ -54,6 +58,7 @@ package field
 //@   ensures [tight] tight(v)
 
 //@ func (*Element).carryPropagate(v)
+//@   leak none
 //@   mode lia
 //@   assigns *v
 //@   ensures [receiver] result == v
@@ -66,6 +71,7 @@ package field
 //@   ensures [tight] tight(v)
 
 //@ func (*Element).Add(v, a, b)
+//@   leak none
 //@   mode lia
 //@   requires [inv] inv(a) && inv(b)
 //@   assigns *v
@@ -74,6 +80,7 @@ package field
 //@   ensures [value] cong(lv(v), lv(a) + lv(b), P)
 
 //@ func (*Element).Subtract(v, a, b)
+//@   leak none
 //@   mode lia
 //@   requires [inv] inv(a) && inv(b)
 //@   assigns *v
@@ -82,6 +89,7 @@ package field
 //@   ensures [value] cong(lv(v), lv(a) - lv(b), P)
 
 //@ func (*Element).Negate(v, a)
+//@   leak none
 //@   mode lia
 //@   requires [inv] inv(a)
 //@   assigns *v
@@ -90,6 +98,7 @@ package field
 //@   ensures [value] cong(lv(v), 0 - lv(a), P)
 
 //@ func feMulGeneric(v, a, b)
+//@   leak none
 //@   mode lia
 //@   requires [inv] inv(a) && inv(b)
 //@   assigns *v
@@ -97,6 +106,7 @@ package field
 //@   ensures [value] cong(lv(v), lv(a) * lv(b), P)
 
 //@ func feSquareGeneric(v, a)
+//@   leak none
 //@   mode lia
 //@   requires [inv] inv(a)
 //@   assigns *v
@@ -104,6 +114,7 @@ package field
 //@   ensures [value] cong(lv(v), lv(a) * lv(a), P)
 
 //@ func feMul(v, a, b)
+//@   leak none
 //@   mode lia
 //@   requires [inv] inv(a) && inv(b)
 //@   assigns *v
@@ -111,6 +122,7 @@ package field
 //@   ensures [value] cong(lv(v), lv(a) * lv(b), P)
 
 //@ func feSquare(v, a)
+//@   leak none
 //@   mode lia
 //@   requires [inv] inv(a)
 //@   assigns *v
@@ -118,6 +130,7 @@ package field
 //@   ensures [value] cong(lv(v), lv(a) * lv(a), P)
 
 //@ func (*Element).Multiply(v, x, y)
+//@   leak none
 //@   mode lia
 //@   requires [inv] inv(x) && inv(y)
 //@   assigns *v
@@ -126,6 +139,7 @@ package field
 //@   ensures [value] cong(lv(v), lv(x) * lv(y), P)
 
 //@ func (*Element).Square(v, x)
+//@   leak none
 //@   mode lia
 //@   requires [inv] inv(x)
 //@   assigns *v
@@ -134,6 +148,7 @@ package field
 //@   ensures [value] cong(lv(v), lv(x) * lv(x), P)
 
 //@ func mul51(a, b)
+//@   leak none
 //@   mode lia
 //@   requires [fits] a <= B
 //@   ensures [value] result0 + result1 * 2^51 == a * b
@@ -141,6 +156,7 @@ package field
 //@   ensures [hi] result1 <= a * b / 2^51
 
 //@ func (*Element).Mult32(v, x, y)
+//@   leak none
 //@   mode lia
 //@   requires [inv] inv(x)
 //@   assigns *v
@@ -149,24 +165,28 @@ package field
 //@   ensures [value] cong(lv(v), lv(x) * y, P)
 
 //@ func (*Element).Zero(v)
+//@   leak none
 //@   mode lia
 //@   assigns *v
 //@   ensures [receiver] result == v
 //@   ensures [value] iszero(v)
 
 //@ func (*Element).One(v)
+//@   leak none
 //@   mode lia
 //@   assigns *v
 //@   ensures [receiver] result == v
 //@   ensures [value] isone(v)
 
 //@ func (*Element).Set(v, a)
+//@   leak none
 //@   mode lia
 //@   assigns *v
 //@   ensures [receiver] result == v
 //@   ensures [value] eqlimbs(v, a)
 
 //@ func (*Element).reduce(v)
+//@   leak none
 //@   mode lia
 //@   requires [inv] inv(v)
 //@   assigns *v
@@ -175,12 +195,14 @@ package field
 //@   ensures [value] lv(v) == lv(old(v)) % P
 
 //@ func mask64Bits(cond)
+//@   leak none
 //@   mode bv
 //@   requires [cond] cond == 0 || cond == 1
 //@   ensures [one] cond == 1 ==> result == 2^64 - 1
 //@   ensures [zero] cond == 0 ==> result == 0
 
 //@ func (*Element).Select(v, a, b, cond)
+//@   leak none
 //@   mode bv
 //@   requires [cond] cond == 0 || cond == 1
 //@   casesplit cond in 0..2
@@ -190,6 +212,7 @@ package field
 //@   ensures [zero] cond == 0 ==> eqlimbs(v, b)
 
 //@ func (*Element).Swap(v, u, cond)
+//@   leak none
 //@   mode bv
 //@   requires [cond] cond == 0 || cond == 1
 //@   casesplit cond in 0..2
@@ -198,6 +221,7 @@ package field
 //@   ensures [zero] cond == 0 ==> eqlimbs(v, old(v)) && eqlimbs(u, old(u))
 
 //@ func (*Element).SetBytes(v, x)
+//@   leak none
 //@   mode bv
 //@   casesplit len(x) == 32
 //@   assigns *v
@@ -207,6 +231,7 @@ package field
 //@   ensures [limbs] len(x) == 32 ==> small(v)
 
 //@ func (*Element).bytes(v, out)
+//@   leak none
 //@   mode bv
 //@   requires [inv] inv(v)
 //@   requires [zeroed] forall i in 0..32: out[i] == 0
@@ -215,6 +240,7 @@ package field
 //@   ensures [value] le(out, 32) == lv(v) % P
 
 //@ func (*Element).Bytes(v)
+//@   leak none
 //@   mode bv
 //@   requires [inv] inv(v)
 //@   ensures [fresh] fresh(result)
@@ -222,18 +248,21 @@ package field
 //@   ensures [value] le(result, 32) == lv(v) % P
 
 //@ func (*Element).Equal(v, u)
+//@   leak none
 //@   mode bv
 //@   requires [inv] inv(v) && inv(u)
 //@   ensures [bit] 0 <= result && result <= 1
 //@   ensures [iff] result == 1 <==> lv(v) % P == lv(u) % P
 
 //@ func (*Element).IsNegative(v)
+//@   leak none
 //@   mode bv
 //@   requires [inv] inv(v)
 //@   ensures [bit] 0 <= result && result <= 1
 //@   ensures [value] result == (lv(v) % P) % 2
 
 //@ func (*Element).Absolute(v, u)
+//@   leak none
 //@   mode lia
 //@   requires [inv] inv(u)
 //@   casesplit (lv(u) % P) % 2 in 0..2
@@ -245,6 +274,7 @@ package field
 //@   ensures [even] (lv(v) % P) % 2 == 0
 
 //@ func (*Element).SetWideBytes(v, x)
+//@   leak none
 //@   mode lia
 //@   casesplit len(x) == 64
 //@   assigns *v
@@ -256,6 +286,7 @@ package field
 //@ globalinv [X:sqrtM1] inv(sqrtM1) && cong(lv(sqrtM1) * lv(sqrtM1), 0 - 1, P)
 
 //@ func (*Element).Invert(v, z)
+//@   leak none
 //@   mode ring
 //@   requires [inv] inv(z)
 //@   assigns *v
@@ -264,6 +295,7 @@ package field
 //@   ensures [value] cong(lv(v), fpow(lv(z), P - 2), P)
 
 //@ func (*Element).Pow22523(v, x)
+//@   leak none
 //@   mode ring
 //@   requires [inv] inv(x)
 //@   assigns *v
@@ -272,6 +304,7 @@ package field
 //@   ensures [value] cong(lv(v), fpow(lv(x), (P - 5) / 8), P)
 
 //@ func (*Element).SqrtRatio(r, u, v)
+//@   leak none
 //@   mode ring
 //@   requires [inv] inv(u) && inv(v)
 //@   assigns *r
